@@ -768,7 +768,7 @@
         kani::assume(x > y || y > g.len);
         let _ = b.slice(x..y);
     });
-    // @h props=C13,C02 tier=quick group=ooc allow=(placeholder.message|assertion.failed|out.of.range).*in.function must_fail=. note=Bytes::slice(..=usize::MAX)
+    // @h props=C13,C02 tier=quick group=ooc allow=placeholder.message.*in.function.core::option::expect_failed|(placeholder.message|assertion.failed).*in.function.bytes::Bytes::slice must_fail=. note=Bytes::slice(..=usize::MAX)
     ooc!(ooc_slice_inclusive_max, |b, g| {
         let x: usize = kani::any();
         let _ = b.slice(x..=usize::MAX);
